@@ -100,4 +100,105 @@ theorem importAll_over (g : Graph) (s0 : State) :
       simp [this]
     · exact importAll_over g s0 ms _ (PresMono.trans hs (importModule_mono g s m)) p hp hcore
 
+/-! ## histories over a set of loaded modules plus two more -/
+
+theorem importModule_ok_state_present (g : Graph) (s : State) (x y : Mod) (hy : s.isPresent y = true) :
+    (importModule g s x).1.isPresent y = true := importModule_mono g s x y hy
+
+/-- Let every module of `U` be present in `s0`, and let `a` and `m` import from `s0` in either order.  Then every
+import of every sequence over `U ∪ {a, m}` (any order, any repetitions) started in `s0` succeeds. -/
+theorem importAll_two (g : Graph) (s0 : State) (U : Mod → Prop) (a m : Mod)
+    (hU : ∀ x, U x → s0.isPresent x = true)
+    (ha : (importModule g s0 a).2 = none) (hm : (importModule g s0 m).2 = none)
+    (ham : (importModule g (importModule g s0 a).1 m).2 = none)
+    (hma : (importModule g (importModule g s0 m).1 a).2 = none) :
+    ∀ (h : List Mod), (∀ x ∈ h, U x ∨ x = a ∨ x = m) → ∀ e ∈ (importAll g s0 h).2, e = none := by
+  -- the states a run can be in
+  let Both : State → Prop := fun s => PresMono s0 s ∧ s.isPresent a = true ∧ s.isPresent m = true
+  have hboth : ∀ (h : List Mod) (s : State), Both s → (∀ x ∈ h, U x ∨ x = a ∨ x = m) →
+      ∀ e ∈ (importAll g s h).2, e = none := by
+    intro h s hb hh e he
+    have hall : ∀ x ∈ h, s.isPresent x = true := by
+      intro x hx
+      rcases hh x hx with hu | rfl | rfl
+      · exact hb.1 x (hU x hu)
+      · exact hb.2.1
+      · exact hb.2.2
+    rw [importAll_present g s h hall] at he
+    simp only [List.mem_map] at he
+    obtain ⟨_, _, rfl⟩ := he
+    rfl
+  -- after `a` (resp. `m`) alone
+  have hone : ∀ (b c : Mod), (b = a ∧ c = m) ∨ (b = m ∧ c = a) →
+      ∀ (h : List Mod), (∀ x ∈ h, U x ∨ x = a ∨ x = m) →
+      ∀ e ∈ (importAll g (importModule g s0 b).1 h).2, e = none := by
+    intro b c hbc h
+    have hb2 : (importModule g s0 b).2 = none := by rcases hbc with ⟨rfl, _⟩ | ⟨rfl, _⟩ <;> assumption
+    have hbc2 : (importModule g (importModule g s0 b).1 c).2 = none := by
+      rcases hbc with ⟨rfl, rfl⟩ | ⟨rfl, rfl⟩ <;> assumption
+    have hbp : (importModule g s0 b).1.isPresent b = true := importModule_ok_present g s0 b hb2
+    have hmono : PresMono s0 (importModule g s0 b).1 := importModule_mono g s0 b
+    induction h with
+    | nil => intro _ e he; simp [importAll] at he
+    | cons x rest ih =>
+      intro hh e he
+      have hx := hh x (List.mem_cons_self ..)
+      have hrest : ∀ y ∈ rest, U y ∨ y = a ∨ y = m := fun y hy => hh y (List.mem_cons_of_mem _ hy)
+      simp only [importAll, List.mem_cons] at he
+      -- is x present already?
+      by_cases hxc : x = c
+      · subst hxc
+        rcases he with rfl | he
+        · exact hbc2
+        · refine hboth rest _ ⟨?_, ?_, ?_⟩ hrest e he
+          · exact PresMono.trans hmono (importModule_mono g _ x)
+          · rcases hbc with ⟨rfl, rfl⟩ | ⟨rfl, rfl⟩
+            · exact importModule_mono g _ _ _ hbp
+            · exact importModule_ok_present g _ _ hbc2
+          · rcases hbc with ⟨rfl, rfl⟩ | ⟨rfl, rfl⟩
+            · exact importModule_ok_present g _ _ hbc2
+            · exact importModule_mono g _ _ _ hbp
+      · have hxp : (importModule g s0 b).1.isPresent x = true := by
+          rcases hx with hu | rfl | rfl
+          · exact hmono x (hU x hu)
+          · rcases hbc with ⟨rfl, rfl⟩ | ⟨rfl, rfl⟩
+            · exact hbp
+            · exact absurd rfl hxc
+          · rcases hbc with ⟨rfl, rfl⟩ | ⟨rfl, rfl⟩
+            · exact absurd rfl hxc
+            · exact hbp
+        have hnoop := importModule_present g (importModule g s0 b).1 x hxp
+        rw [hnoop] at he
+        rcases he with rfl | he
+        · rfl
+        · exact ih hrest e he
+  intro h
+  induction h with
+  | nil => intro _ e he; simp [importAll] at he
+  | cons x rest ih =>
+    intro hh e he
+    have hx := hh x (List.mem_cons_self ..)
+    have hrest : ∀ y ∈ rest, U y ∨ y = a ∨ y = m := fun y hy => hh y (List.mem_cons_of_mem _ hy)
+    simp only [importAll, List.mem_cons] at he
+    by_cases hxa : x = a
+    · subst hxa
+      rcases he with rfl | he
+      · exact ha
+      · exact hone x m (Or.inl ⟨rfl, rfl⟩) rest hrest e he
+    · by_cases hxm : x = m
+      · subst hxm
+        rcases he with rfl | he
+        · exact hm
+        · exact hone x a (Or.inr ⟨rfl, rfl⟩) rest hrest e he
+      · have hu : U x := by
+          rcases hx with hu | e1 | e1
+          · exact hu
+          · exact absurd e1 hxa
+          · exact absurd e1 hxm
+        have hnoop := importModule_present g s0 x (hU x hu)
+        rw [hnoop] at he
+        rcases he with rfl | he
+        · rfl
+        · exact ih hrest e he
+
 end Ioflo.Imports
